@@ -44,6 +44,7 @@ func main() {
 		ins := &inserter{fset: fset, base: base, call: *call}
 		for _, d := range f.Decls {
 			if fd, ok := d.(*ast.FuncDecl); ok && fd.Body != nil {
+				ins.held = 0
 				ins.block(fd.Body)
 			}
 		}
@@ -106,6 +107,41 @@ type inserter struct {
 	base string
 	call string
 	n    int
+
+	// held is the lexical lock depth: the number of X.Lock()/X.RLock()
+	// statements seen without a matching X.Unlock()/X.RUnlock() statement.  No
+	// yield is inserted while it is positive: a task must never park inside a
+	// critical section, because another task's Lock() of a mutex that has no
+	// hand-placed hook would then block in a way the simulator cannot see and
+	// a correct program would look hung.  The tracking is conservative: after
+	// a nested block the larger of the depths before and after it is kept (an
+	// early "Unlock(); return" branch does not end the outer section), and a
+	// deferred Unlock keeps the section open until the function ends.
+	held int
+}
+
+// lockDelta classifies a statement as a lock (+1) or unlock (-1) call.
+func lockDelta(s ast.Stmt) int {
+	es, ok := s.(*ast.ExprStmt)
+	if !ok {
+		return 0
+	}
+	ce, ok := es.X.(*ast.CallExpr)
+	if !ok || len(ce.Args) != 0 {
+		return 0
+	}
+	sel, ok := ce.Fun.(*ast.SelectorExpr)
+	if !ok {
+		return 0
+	}
+	switch sel.Sel.Name {
+	case "Lock", "RLock":
+		return 1
+	case "Unlock", "RUnlock":
+		return -1
+	}
+
+	return 0
 }
 
 func (in *inserter) yield(pos token.Pos) ast.Stmt {
@@ -135,12 +171,17 @@ func (in *inserter) list(stmts []ast.Stmt) []ast.Stmt {
 	var out []ast.Stmt
 	for i, s := range stmts {
 		prevHook := i > 0 && isHook(stmts[i-1])
-		if !isHook(s) && !prevHook {
+		if !isHook(s) && !prevHook && in.held == 0 {
 			if _, isDecl := s.(*ast.DeclStmt); !isDecl {
 				out = append(out, in.yield(s.Pos()))
 			}
 		}
+		before := in.held
 		in.stmt(s)
+		in.held = max(before, in.held)
+		if d := lockDelta(s); d != 0 {
+			in.held = max(0, before+d)
+		}
 		out = append(out, s)
 	}
 
@@ -157,7 +198,11 @@ func (in *inserter) block(b *ast.BlockStmt) {
 func (in *inserter) exprs(n ast.Node) {
 	ast.Inspect(n, func(x ast.Node) bool {
 		if fl, ok := x.(*ast.FuncLit); ok {
+			// A function literal runs at another time: its own lock depth.
+			outer := in.held
+			in.held = 0
 			in.block(fl.Body)
+			in.held = outer
 
 			return false
 		}
